@@ -232,14 +232,18 @@ EXTRA_MC = []
 
 # ---------------------------------------------------------------- loose layouts (accepted-but-unusual texts) for C07 C11 C15 (and C08 C16)
 L_IDENTS = [b"x", b"tasks", b"taskx", b"task", b"join", b"T", "é".encode(), b"_a", b"mytask", b"exec", b"task_a", "task\u05d0".encode(), "\u05d0".encode()]
+# names the grammar does not admit today (a digit, a hyphen, a dot inside): every text with one of them is rejected by the unchanged
+# lexer, so they demand nothing there -- but a change that widens the grammar makes them parse, and then C07 C11 C15 apply to them
+L_IDENTS_WIDE = [b"task2", b"task_2", b"x1", b"py3", b"tasks3", b"a-b", b"a.b", b"task-a"]
 L_STRS = [b'"a"', b'""', b'"task"', b'"*.go"', b'"a b"', b'"a\\b"', b'"50%"', b'"x\ty"', b'"\nabc"', b'"\n"']
 L_COMMENTS = [b" c", b"", b" ", b"x", b" task t() {", b"#"]
 L_CMDS = [b"go build", b"x", b"echo {{.x}}", b"ls -l", b"task x", b"echo a\r", b"ls \r", b"a\r\r", b"b  ", b"echo {{", b"x}} y", b"echo {{ .x", b"}} z"]
 L_SEPS = [b"", b"", b" ", b" ", b"\n", b"\n", b"\t", b"  ", b"\n\n", b" \n", b"\r\n", b"\r", b"\r "]
 
 
-def loose_text(rnd):
+def loose_text(rnd, wide=False):
     toks = []
+    L_IDENTS = globals()["L_IDENTS"] + (L_IDENTS_WIDE if wide else [])
 
     def arg():
         return rnd.choice(L_STRS) if rnd.random() < 0.5 else rnd.choice(L_IDENTS)
@@ -314,8 +318,8 @@ def loose(ctx, pid, tier):
     n = 60000 if tier == "quick" else 700000
     seen = set()
     out = []
-    for _ in range(n):
-        b = loose_text(rnd)
+    for k in range(n):
+        b = loose_text(rnd, wide=(k % 8 == 7))
         if b not in seen:
             seen.add(b)
             out.append((b, None, None, "loose"))
